@@ -1008,6 +1008,8 @@ class _Env:
                 return o.qualname.split('.')[-1]
             return Unknown(f'attribute {attr} of function')
         if isinstance(o, AObj):
+            if attr == '__class__' and hasattr(o, '_abstract_type'):
+                return o._abstract_type        # abstract stand-ins may name the (abstract) type they are instances of
             if hasattr(o, attr):
                 v = getattr(o, attr)
                 if callable(v) and not isinstance(v, (FuncVal, ClassVal)):
